@@ -154,6 +154,8 @@ def _install_probe() -> None:
                     rec.ticks.append(_snapshot(self, tick, ok, rec))
                 except Exception as e:  # noqa: BLE001
                     rec.notes.append({"probe_error": repr(e)})
+            if rec is not None and ok and getattr(rec, "tick_hook", None) is not None:
+                rec.tick_hook(self, tick)
 
     R.__init__ = __init__
     R._process_tick = _process_tick
